@@ -355,7 +355,7 @@ class Check:
 # per property: which substrates, how much
 def plan(prop, tier):
     if tier == 'quick':
-        p = [('native', 'runs', 1000000), ('nodebug', 'runs', 500000)]
+        p = [('native', 'runs', 2000000), ('nodebug', 'runs', 1000000)]
         if prop == 'C05':
             p += [('simd', 'runs', 500000)]
         if prop == 'C06':
